@@ -5,7 +5,7 @@
    offset); [wstep Cur] is the class as it stands in the repository (finding F06: numbering
    restarts when the cache is dropped).  [bufsize] stands for io.DEFAULT_BUFFER_SIZE; every
    theorem holds for every value of it. *)
-From PV Require Import Base.Bytes Model.Wrapper Proofs.Wrapper.
+From PV Require Import Base.Bytes Model.Wrapper Proofs.Wrapper Proofs.WrapperAnyRaw.
 
 (* The seek-back wrapper behaves, for every history of reads, peeks, marks set at the current
    position, tells and backward seeks not before the mark, like a seekable stream over the same
@@ -86,6 +86,41 @@ Theorem C11_client_refines : forall bufsize (c: client) fuel w s hist,
   run_client (wstep Fix bufsize) c fuel w hist = run_client sstep c fuel s hist.
 Proof. exact client_refines. Qed.
 Print Assumptions C11_client_refines.
+
+(* The same for ANY raw stream - one that delivers fewer octets than asked (sockets, pipes), one
+   that answers None when it has nothing yet (non-blocking), in any deterministic pattern [rread]:
+   the wrapper (with fixes/F05.diff and fixes/F06.diff) answers every permitted history exactly as
+   the seekable stream that keeps everything delivered so far and draws on the same source. *)
+Theorem C11_wrapper_refines_any_raw :
+  forall (R: Type) (rread: option nat -> R -> option bytes * R) bufsize ops g f,
+  grelated g f -> gpermittedb rread f ops = true ->
+  outputs (run (gwstep rread true Fix bufsize) g ops) = outputs (run (fstep rread) f ops).
+Proof. exact wrapper_refines_any_raw. Qed.
+Print Assumptions C11_wrapper_refines_any_raw.
+
+(* non-vacuity: packets of 2, 3 and 5 octets, the second and fifth call answered None, bufsize 2 *)
+Example C11_wrapper_refines_any_raw_nonvacuous :
+  let r := mkPraw (cut [2; 3; 5]%N [10; 11; 12; 13; 14; 15; 16; 17; 18; 19]%N) [false; true; false; false; true] in
+  let ops := [ORead 3; ORead 3; ORead 3; OTell; OSetMark 5; ORead 4; OSeekSet 5; OPeek 9; ORead 2; OTell; OGetMark] in
+  grelated (gw_init r) (f_init r)
+  /\ gpermittedb pread (f_init r) ops = true
+  /\ woff (gw (fst (run (gwstep pread true Fix 2) (gw_init r) ops))) = 5
+  /\ outputs (run (gwstep pread true Fix 2) (gw_init r) ops)
+     = [OBytes [10; 11]; ONoData; OBytes [12; 13; 14]; ONum 5; ONone; OBytes [15; 16; 17; 18];
+        ONum 5; OBytes [15; 16; 17; 18]; OBytes [15; 16]; ONum 7; ONum 5]%N.
+Proof. split; [exact (grelated_init _ _)|]. repeat split. Qed.
+
+(* Finding F05, in Coq: without fixes/F05.diff a None from the raw stream ends in TypeError
+   (BytesIO.write(None)) where the reference and the repaired class report "no data yet" and
+   deliver the octets on the next call. *)
+Theorem C11_refuted_none_old :
+  let r := mkPraw [[1; 2; 3]%N] [true; false] in
+  outputs (run (gwstep pread false Fix 8) (gw_init r) [ORead 2; ORead 2])
+    = [OTypeError; OBytes [1; 2]%N]
+  /\ outputs (run (fstep pread) (f_init r) [ORead 2; ORead 2]) = [ONoData; OBytes [1; 2]%N]
+  /\ outputs (run (gwstep pread true Fix 8) (gw_init r) [ORead 2; ORead 2]) = [ONoData; OBytes [1; 2]%N].
+Proof. exact refuted_none_old. Qed.
+Print Assumptions C11_refuted_none_old.
 
 (* asSeekableStream, as coded: bytes, BytesIO, OctetString/Any and seekable objects all become
    the seekable stream over their octets, non-seekable objects are wrapped, anything else is
